@@ -57,11 +57,12 @@ PROPS["C06"] = {
 
 PROPS["C07"] = {
     "level": "exploration",
-    "rule": "every network-facing decoder (server inbound and client reply decoders of every protocol/cipher in states initial / header-done / mid-chunk, datagram-in-stream decoders, Shadowsocks UDP decoders of both roles, the four SOCKS5 handshake decoders, Socks5UdpCodec, HTTP request-target extraction) x input classes: all single bytes and sampled pairs, random strings of every length 0..80 and longer ones, the valid continuation with one bit flipped or truncated at a point followed by EOF, and well-authenticated-but-malformed frames built with the reference implementation (every ATYP 0..255, domain lengths vs. actual, padding lengths at u16 boundaries, truncated and checksum-valid-but-short VMess headers, every VMess command/option/padding nibble, masked chunk lengths 0..80, every Trojan command, non-ASCII hashes, empty VMess response headers); delivered whole, byte-by-byte and in random cuts, then end-of-stream; SOCKS5 decoders: ALL inputs of length <= 2 and lengths 3-6 over a 9-value alphabet; monitors: panic hook with in-repo frame, UTF-8 validity of every yielded host name; evaluations = inputs presented; distinct = (decoder, case) pairs",
+    "rule": "every network-facing decoder (server inbound and client reply decoders of every protocol/cipher in states initial / header-done / mid-chunk, datagram-in-stream decoders, Shadowsocks UDP decoders of both roles, the four SOCKS5 handshake decoders, Socks5UdpCodec, HTTP request-target extraction) x input classes: all single bytes and sampled pairs, random strings of every length 0..80 and longer ones, the valid continuation with one bit flipped or truncated at a point followed by EOF, and well-authenticated-but-malformed frames built with the reference implementation (every ATYP 0..255, domain lengths vs. actual, padding lengths at u16 boundaries, truncated and checksum-valid-but-short VMess headers, every VMess command/option/padding nibble, masked chunk lengths 0..80, every Trojan command, non-ASCII hashes, empty VMess response headers); delivered whole, byte-by-byte and in random cuts, then end-of-stream; SOCKS5 decoders: ALL inputs of length <= 2 and lengths 3-6 over a 9-value alphabet; monitors: panic hook with in-repo frame, UTF-8 validity of every yielded host name; node level (every protocol with a rotating transport, thorough: all 50 protocol x transport configurations): RUNNING nodes are fed hostile input so that the glue behind the decoders is reached too - (A) a peer writes to the server, through the transport it listens on (tcp / tls / ws / wss / quic), random bytes, valid requests bit-flipped / truncated / continued with garbage, the authenticated-malformed requests of the generators above (right credential, real clock), valid requests and datagram associations for unusual targets (names that are not UTF-8 or contain NUL, 255-byte names, port 0, unresolvable names, refused ports, unspecified and broadcast addresses), in random pieces, ended by FIN / reset / silence; WebSocket listeners additionally get 40 hand-written upgrade requests (no Host header, HTTP/1.0, odd paths, missing key, header values that are not text, ...) and frame scripts (fragmented, unmasked, reserved bits, giant declared length, control frames, byte-per-frame); Shadowsocks UDP ports get the datagram generators and valid datagrams for the same targets; (B) a hostile reference server (tcp or websocket, plus a UDP socket for Shadowsocks) answers a real client with nothing / reset / silence / random bytes / valid answers bit-flipped, truncated, continued with garbage / authenticated-malformed answers (response headers of every shape, first-length and chunk-length fields at the boundaries, wrong type / timestamp / salt echo, VMess response commands, malformed datagram frames and datagrams); (C) local applications name 49 odd targets (only dots, trailing dots, NUL, not UTF-8, 255 bytes, brackets, colons) over SOCKS5 CONNECT, HTTP CONNECT, plain HTTP and SOCKS5 UDP; monitors there: the panic recorder inside osv-node (location, message, innermost in-repo frame), process liveness, and after each part a fresh TCP flow and a fresh datagram exchange that must still be relayed; evaluations = inputs presented; distinct = (decoder, case) pairs + (configuration, part)",
     "exhaustive_note": "all inputs of length <= 2 for the SOCKS5 decoders and all single-byte inputs for every stream decoder state are enumerated",
     "assumptions": TB + ["a decoder may answer None, Some or Err; only panics, aborts, sanitizer reports and invalid strings are violations", "the same workload at reduced scale runs under AddressSanitizer and Miri in the thorough tier"],
     "plan": [
         {"name": "crash-native", "check": "c07"},
+        {"name": "hostile-nodes", "check": "c07", "bin": "osv-e2e", "timeout": {"quick": 900, "thorough": 3000}},
         {"name": "crash-dev-profile", "check": "c07", "variant": "dev", "scale": 0.25, "tiers": ("thorough",)},
         {"name": "miri", "kind": "python", "module": "miristep", "tiers": ("thorough",), "optional": True, "shards": 16},
         {"name": "crash-asan", "check": "c07", "variant": "asan", "scale": 0.1, "tiers": ("thorough",), "optional": True, "env": {"ASAN_OPTIONS": "detect_leaks=0:halt_on_error=1:abort_on_error=0"}},
